@@ -1,2 +1,262 @@
-(* Props_C01_spec — property theorems of the proof agent owning this topic: only Theorem ... exact ... Qed. Print Assumptions. *)
+(* Props_C01_spec — what the executable routing specification S (Spec.v) means.
+   Only statements, each closed by [exact] + Print Assumptions; the proofs and the
+   non-vacuity Examples (section E of SpecSound2.v: select_sound_ex, Matches_catch_ex,
+   Matches_host_ex, Matches_meaning_ex, select_complete_ex, select_none_ex,
+   select_priority_ex, exact_static_wins_ex, NoConflict_ex, select_order_independent_ex,
+   order_matters_without_NoConflict, spec_lookup_ex, DirectMatch_ex, TsrMatch_ex,
+   tsr_literal_ex, spec_lookup_order_independent_ex) are in SpecSound.v / SpecSound2.v.
+   Reading guide: docs/C01_spec.md.  [Matches], [trace], [trace_le], [Best], [NoMatch]
+   are defined at the top of SpecSound.v; [NoConflict], [DirectMatch], [TsrMatch] in
+   SpecSound2.v. *)
 From FoxBase Require Import Bytes.
+From FoxRoute Require Import Spec SpecFacts SpecSound SpecSound2.
+Open Scope char_scope.
+Local Notation length := List.length.
+
+(* ---- 1. what a match is: consequences of the declarative relation ---- *)
+
+Theorem S_Matches_length ts s h vals :
+  Matches ts s h vals -> length vals = length (wildcard_names ts).
+Proof. exact (Matches_length ts s h vals). Qed.
+Print Assumptions S_Matches_length.
+
+Theorem S_subst_reproduces ts s h vals : Matches ts s h vals -> subst ts vals = s.
+Proof. exact (Matches_subst ts s h vals). Qed.
+Print Assumptions S_subst_reproduces.
+
+(* path: {name} values are non-empty without '/', *{name} values are non-empty *)
+Theorem S_path_values ts s vals :
+  Matches ts s 0 vals -> Forall2 path_val_ok (wilds ts) vals.
+Proof. exact (Matches_path_values ts s vals). Qed.
+Print Assumptions S_path_values.
+
+(* host: only {name}, each value non-empty without '.' *)
+Theorem S_host_values ts s h vals :
+  Matches ts s h vals -> h = length s -> no_catch ts /\ Forall host_val_ok vals.
+Proof. exact (Matches_host_values ts s h vals). Qed.
+Print Assumptions S_host_values.
+
+(* a hostname match consumes the WHOLE host with a prefix of the pattern, the path with the rest *)
+Theorem S_host_split ts s h vals :
+  Matches ts s h vals ->
+  exists ts1 ts2 vals1 vals2,
+    ts = ts1 ++ ts2 /\ vals = vals1 ++ vals2 /\
+    Matches ts1 (firstn h s) h vals1 /\ Matches ts2 (skipn h s) 0 vals2.
+Proof. exact (Matches_host_split ts s h vals). Qed.
+Print Assumptions S_host_split.
+
+(* ---- 2. soundness of select (any fuel) ---- *)
+
+Theorem S_select_sound fuel cs s h p vals :
+  h <= length s ->
+  select fuel cs s h [] = Some (p, vals) ->
+  exists k, In k cs /\ pat k = p /\ Matches (toks k) s h vals.
+Proof. exact (select_sound fuel cs s h p vals). Qed.
+Print Assumptions S_select_sound.
+
+Theorem S_select_sound_pats fuel pats s h p vals :
+  h <= length s ->
+  select fuel (map mk_cand pats) s h [] = Some (p, vals) ->
+  In p pats /\ Matches (tokenize p) s h vals /\
+  length vals = length (wildcard_names (tokenize p)) /\
+  subst (tokenize p) vals = s.
+Proof. exact (select_sound_pats fuel pats s h p vals). Qed.
+Print Assumptions S_select_sound_pats.
+
+(* ---- 3. completeness: "no route" only when none matches (fuel > |s| suffices) ---- *)
+
+Theorem S_select_complete fuel cs s h k vals :
+  In k cs -> Matches (toks k) s h vals -> length s < fuel ->
+  select fuel cs s h [] <> None.
+Proof. exact (select_complete fuel cs s h k vals). Qed.
+Print Assumptions S_select_complete.
+
+Theorem S_select_none_iff fuel cs s h :
+  length s < fuel -> h <= length s ->
+  (select fuel cs s h [] = None <-> NoMatch cs s h).
+Proof. exact (select_none_iff fuel cs s h). Qed.
+Print Assumptions S_select_none_iff.
+
+(* ---- 4. priority: select returns the least match in the lexicographic order
+        static < parameter < catch-all (shortest catch-all value first) ---- *)
+
+Theorem S_select_priority fuel cs s h p vals :
+  length s < fuel -> h <= length s ->
+  select fuel cs s h [] = Some (p, vals) ->
+  exists k, pat k = p /\ In k cs /\ Matches (toks k) s h vals /\
+    forall k' vals', In k' cs -> Matches (toks k') s h vals' ->
+      trace_le (trace (toks k) vals) (trace (toks k') vals').
+Proof. exact (select_priority fuel cs s h p vals). Qed.
+Print Assumptions S_select_priority.
+
+Theorem S_trace_le_antisym l m : trace_le l m -> trace_le m l -> l = m.
+Proof. exact (trace_le_antisym l m). Qed.
+Print Assumptions S_trace_le_antisym.
+
+(* (a) at the first position where the selected match and another match act
+   differently, the selected one does the preferred thing; in particular it never
+   uses a wildcard where the other uses a static byte *)
+Theorem S_best_first_difference cs s h k vals k' vals' l a x b y :
+  Best cs s h k vals -> In k' cs -> Matches (toks k') s h vals' ->
+  trace (toks k) vals = l ++ a :: x -> trace (toks k') vals' = l ++ b :: y ->
+  a = b \/ choice_lt a b.
+Proof. exact (best_first_difference cs s h k vals k' vals' l a x b y). Qed.
+Print Assumptions S_best_first_difference.
+
+Theorem S_wildcard_not_preferred_to_static cs s h k vals k' vals' l a x y :
+  Best cs s h k vals -> In k' cs -> Matches (toks k') s h vals' ->
+  trace (toks k) vals = l ++ a :: x -> trace (toks k') vals' = l ++ CStatic :: y ->
+  a = CStatic.
+Proof. exact (wildcard_not_preferred_to_static cs s h k vals k' vals' l a x y). Qed.
+Print Assumptions S_wildcard_not_preferred_to_static.
+
+Theorem S_exact_static_wins fuel cs s h k' :
+  length s < fuel -> In k' cs -> toks k' = map TStatic s -> Matches (toks k') s h [] ->
+  exists k, In k cs /\ toks k = map TStatic s /\ select fuel cs s h [] = Some (pat k, []).
+Proof. exact (exact_static_wins fuel cs s h k'). Qed.
+Print Assumptions S_exact_static_wins.
+
+(* (b) independence of registration order under the C02 no-conflict invariant *)
+Theorem S_select_order_independent fuel1 fuel2 cs1 cs2 s h :
+  (forall k, In k cs1 <-> In k cs2) -> NoConflict cs1 ->
+  length s < fuel1 -> length s < fuel2 -> h <= length s ->
+  select fuel1 cs1 s h [] = select fuel2 cs2 s h [].
+Proof. exact (select_order_independent fuel1 fuel2 cs1 cs2 s h). Qed.
+Print Assumptions S_select_order_independent.
+
+Theorem S_no_conflict_b_ok cs : no_conflict_b cs = true -> NoConflict cs.
+Proof. exact (no_conflict_b_ok cs). Qed.
+Print Assumptions S_no_conflict_b_ok.
+
+(* ---- 5. select_in (one mode of one method) ---- *)
+
+Theorem S_select_in_sound pats host path hm p vals :
+  select_in pats host path hm = Some (p, vals) -> DirectMatch pats host path hm p vals.
+Proof. exact (select_in_sound pats host path hm p vals). Qed.
+Print Assumptions S_select_in_sound.
+
+Theorem S_select_in_complete pats host path hm p vals :
+  DirectMatch pats host path hm p vals -> select_in pats host path hm <> None.
+Proof. exact (select_in_complete pats host path hm p vals). Qed.
+Print Assumptions S_select_in_complete.
+
+Theorem S_select_in_none_iff pats host path hm :
+  select_in pats host path hm = None <-> NoDirect pats host path hm.
+Proof. exact (select_in_none_iff pats host path hm). Qed.
+Print Assumptions S_select_in_none_iff.
+
+Theorem S_select_in_priority pats host path hm p vals p' vals' :
+  select_in pats host path hm = Some (p, vals) -> DirectMatch pats host path hm p' vals' ->
+  trace_le (trace (tokenize p) vals) (trace (tokenize p') vals').
+Proof. exact (select_in_priority pats host path hm p vals p' vals'). Qed.
+Print Assumptions S_select_in_priority.
+
+Theorem S_select_in_order_independent pats1 pats2 host path hm :
+  (forall p, In p pats1 <-> In p pats2) -> NoConflict (map mk_cand pats1) ->
+  select_in pats1 host path hm = select_in pats2 host path hm.
+Proof. exact (select_in_order_independent pats1 pats2 host path hm). Qed.
+Print Assumptions S_select_in_order_independent.
+
+(* the property's clauses for a direct match: registered; names and values in pattern
+   order; subst reproduces host ++ path (resp. path); value shapes *)
+Theorem S_DirectMatch_meaning pats host path hm p vals :
+  DirectMatch pats host path hm p vals ->
+  In p pats /\
+  map fst (name_values p vals) = wildcard_names (tokenize p) /\
+  map snd (name_values p vals) = vals /\
+  subst (tokenize p) vals = mode_text host path hm /\
+  (hm = false -> Forall2 path_val_ok (wilds (tokenize p)) vals) /\
+  (hm = true ->
+     exists ts1 ts2 v1 v2, tokenize p = ts1 ++ ts2 /\ vals = v1 ++ v2 /\
+       Matches ts1 host (length host) v1 /\ Matches ts2 path 0 v2 /\
+       no_catch ts1 /\ Forall host_val_ok v1 /\ Forall2 path_val_ok (wilds ts2) v2).
+Proof. exact (DirectMatch_meaning pats host path hm p vals). Qed.
+Print Assumptions S_DirectMatch_meaning.
+
+(* ---- 6. select_tsr_in ---- *)
+
+Theorem S_select_tsr_in_sound pats host path hm p vals :
+  select_tsr_in pats host path hm = Some (p, vals) -> TsrMatch pats host path hm p vals.
+Proof. exact (select_tsr_in_sound pats host path hm p vals). Qed.
+Print Assumptions S_select_tsr_in_sound.
+
+Theorem S_select_tsr_in_complete pats host path hm p vals :
+  TsrMatch pats host path hm p vals -> select_tsr_in pats host path hm <> None.
+Proof. exact (select_tsr_in_complete pats host path hm p vals). Qed.
+Print Assumptions S_select_tsr_in_complete.
+
+Theorem S_select_tsr_in_none_iff pats host path hm :
+  select_tsr_in pats host path hm = None <-> NoTsr pats host path hm.
+Proof. exact (select_tsr_in_none_iff pats host path hm). Qed.
+Print Assumptions S_select_tsr_in_none_iff.
+
+Theorem S_select_tsr_in_order_independent pats1 pats2 host path hm :
+  (forall p, In p pats1 <-> In p pats2) -> NoConflict (map mk_cand pats1) ->
+  select_tsr_in pats1 host path hm = select_tsr_in pats2 host path hm.
+Proof. exact (select_tsr_in_order_independent pats1 pats2 host path hm). Qed.
+Print Assumptions S_select_tsr_in_order_independent.
+
+(* the added slash is forced onto a literal '/' ending the pattern: the pattern
+   without it matches the request as it is *)
+Theorem S_tsr_added_slash_is_literal pats host path hm p vals :
+  TsrMatch pats host path hm p vals -> ends_with_slash path = false ->
+  exists ts, tokenize p = ts ++ [TStatic "/"] /\
+             Matches ts (mode_text host path hm) (mode_h host hm) vals.
+Proof. exact (tsr_added_slash_is_literal pats host path hm p vals). Qed.
+Print Assumptions S_tsr_added_slash_is_literal.
+
+(* ---- 7. spec_lookup: direct(host) > tsr(host) > direct(path-only) > tsr(path-only) ---- *)
+
+Theorem S_spec_lookup_eq pats host path :
+  spec_lookup pats host path =
+  match select_in pats host path true with Some x => mk_res false x | None =>
+  match select_tsr_in pats host path true with Some x => mk_res true x | None =>
+  match select_in pats host path false with Some x => mk_res false x | None =>
+  match select_tsr_in pats host path false with Some x => mk_res true x | None => SNone
+  end end end end.
+Proof. exact (spec_lookup_eq pats host path). Qed.
+Print Assumptions S_spec_lookup_eq.
+
+Theorem S_spec_lookup_direct pats host path p ps :
+  spec_lookup pats host path = SDirect p ps ->
+  exists hm vals, ps = name_values p vals /\ DirectMatch pats host path hm p vals /\
+    (hm = false -> NoDirect pats host path true /\ NoTsr pats host path true).
+Proof. exact (spec_lookup_direct pats host path p ps). Qed.
+Print Assumptions S_spec_lookup_direct.
+
+(* a trailing-slash answer only when nothing matches directly (in that mode and in
+   every mode tried before it) *)
+Theorem S_spec_lookup_tsr pats host path p ps :
+  spec_lookup pats host path = STsr p ps ->
+  exists hm vals, ps = name_values p vals /\ TsrMatch pats host path hm p vals /\
+    NoDirect pats host path hm /\
+    (hm = false -> NoDirect pats host path true /\ NoTsr pats host path true).
+Proof. exact (spec_lookup_tsr pats host path p ps). Qed.
+Print Assumptions S_spec_lookup_tsr.
+
+Theorem S_spec_lookup_none_iff pats host path :
+  spec_lookup pats host path = SNone <->
+  forall hm, NoDirect pats host path hm /\ NoTsr pats host path hm.
+Proof. exact (spec_lookup_none_iff pats host path). Qed.
+Print Assumptions S_spec_lookup_none_iff.
+
+Theorem S_spec_lookup_hostname_first pats host path p vals :
+  DirectMatch pats host path true p vals ->
+  exists p' vals', spec_lookup pats host path = SDirect p' (name_values p' vals') /\
+                   DirectMatch pats host path true p' vals'.
+Proof. exact (spec_lookup_hostname_first pats host path p vals). Qed.
+Print Assumptions S_spec_lookup_hostname_first.
+
+Theorem S_spec_lookup_fallback pats host path p vals :
+  NoDirect pats host path true -> NoTsr pats host path true ->
+  DirectMatch pats host path false p vals ->
+  exists p' vals', spec_lookup pats host path = SDirect p' (name_values p' vals') /\
+                   DirectMatch pats host path false p' vals'.
+Proof. exact (spec_lookup_fallback pats host path p vals). Qed.
+Print Assumptions S_spec_lookup_fallback.
+
+Theorem S_spec_lookup_order_independent pats1 pats2 host path :
+  (forall p, In p pats1 <-> In p pats2) -> NoConflict (map mk_cand pats1) ->
+  spec_lookup pats1 host path = spec_lookup pats2 host path.
+Proof. exact (spec_lookup_order_independent pats1 pats2 host path). Qed.
+Print Assumptions S_spec_lookup_order_independent.
